@@ -38,6 +38,9 @@ EXHAUSTIVE = {"quick": True, "thorough": True}
 SAMPLE_EVERY = {"quick": 9000, "thorough": 300000}
 
 BLOCKS = [("sscope", "A"), ("updated", "A"), ("ascope", "A"), ("updated", "R"), ("prepared", "R")]
+# op 5 = "use the shared prepared update": `with prepared_update: probe` in one step (no suspension
+# inside, so uses never overlap); the object was built by the root at its start and may be used by
+# every task, any number of times - each use must sit on top of the *user's* current state
 # block 4 = a sync scope object supplying [R] that the ROOT task built at its very start (outside
 # everything); only the first child may enter it (once): a scope prepared in one place / task and
 # entered in another must still sit on top of the state of the task that enters it
@@ -56,6 +59,10 @@ def scripts(L: int, with_prepared: bool = False):
             s = [*prefix, b]
             out.append(s)
             go(s, depth + 1)
+        if prefix.count(5) < 1:
+            s = [*prefix, 5]
+            out.append(s)
+            go(s, depth)
         if depth > 0:
             s = [*prefix, -1]
             out.append(s)
@@ -159,14 +166,22 @@ def execute(program, ch: Chooser) -> Result:  # noqa: C901, PLR0915
             supplied[id(pst[0])] = pst[0].tag
             prepared["states"] = pst
             prepared["cm"] = ctx.scope("prepared", *pst)
+            ust = make_states(["R"], "shared-update")
+            keep.extend(ust)
+            supplied[id(ust[0])] = ust[0].tag
+            prepared["upd_states"] = ust
+            prepared["upd"] = ctx.updated(*ust)
         probe(tid, env, in_scope, soft, "start")
         for i, op in enumerate(script):
             maybe_start(i)
             await w.pause(f"t{tid}.{i}")
             if any(not t.done() for k, t in tasks.items() if k != tid):
                 if op >= 0:
-                    interesting[0] = True
-            if op >= 0:
+                    interesting[0] = True  # (incl. op 5)
+            if op == 5:
+                with prepared["upd"]:
+                    probe(tid, [*env, {"R": prepared["upd_states"][0].tag}], True, soft or not in_scope, f"in-shared-update{i}")
+            elif op >= 0:
                 kind, sup = BLOCKS[op]
                 label = f"t{tid}b{next(counter)}"
                 states = make_states([sup], label)
